@@ -2645,7 +2645,6 @@ def c17(ctx):
         return cid, patches, src, code, patched, body
     with ThreadPoolExecutor(max_workers=16) as ex:
         runs = list(ex.map(one, jobs))
-    c17_intervals_tie(ctx, jobs)
     # which declarations contain a site (also a site rewritten to identical syntax): from the Lean engine model
     touched = {}
     dd = ctx.scratch("c17dec")
@@ -2653,7 +2652,9 @@ def c17(ctx):
         for cid, patches, src in jobs:
             f.write(json.dumps({"id": cid, "patches": patches, "src": src}) + "\n")
     for inp, orig, impl, model, same in run_engine_batch(ctx, ["-inputs", os.path.join(dd, "in.jsonl")], "c17dec"):
-        touched[inp["id"]] = model.get("touched", [])
+        if impl["trace"] == model["trace"]:
+            touched[inp["id"]] = model.get("touched", [])
+    c17_intervals_tie(ctx, jobs, touched)
     d = ctx.scratch("cc")
     pth = os.path.join(d, "in.jsonl")
     meta = {}
@@ -2772,8 +2773,35 @@ def c17_problems(ctx, one, patches, src):
         return o.get("problems") or []
     return ["commentcheck gave no answer"]
 
-def c17_intervals_tie(ctx, jobs):
-    """Lean filterComments on the changed intervals of the real engine vs the comments of the real output"""
+def c17_respects_single(ctx, patches, src):
+    """the interval invariant for one (patches, file) case: True / False / None (case not expressible)"""
+    dd = ctx.scratch("c17r")
+    pth = os.path.join(dd, "in.jsonl")
+    with open(pth, "w") as f:
+        f.write(json.dumps({"id": "r", "patches": patches, "src": src}) + "\n")
+    touched = None
+    for inp, orig, impl, model, same in run_engine_batch(ctx, ["-inputs", pth], "c17r"):
+        if impl["trace"] == model["trace"]:
+            touched = model.get("touched", [])
+    if touched is None or len(patches) != 1:
+        return None
+    r = run([ctx.harness, "intervals", "-inputs", pth, "-out", dd], timeout=120)
+    ls = open(os.path.join(dd, "intervals.cases")).read().splitlines() if r.returncode == 0 else []
+    if not ls:
+        return None
+    sx = parse_sx(ls[0])
+    decls = [(int(x[0]), int(x[1]), x[2] == "1") for x in (sx_field(sx[3:], "decls") or [])]
+    nonimp = [(a, b) for a, b, imp in decls if not imp]
+    unt = " (untouched" + "".join(f" ({a} {b})" for j, (a, b) in enumerate(nonimp) if j not in touched) + ")"
+    m = subprocess.run([ctx.driver], input=ls[0][:-1] + unt + ")\n", stdout=subprocess.PIPE, stderr=subprocess.PIPE, text=True, timeout=120)
+    out = parse_sx(m.stdout.strip()) if m.stdout.strip() else None
+    if not out:
+        return None
+    return (sx_field(out[2:], "respects") or ["1"])[0] == "1"
+
+def c17_intervals_tie(ctx, jobs, touched):
+    """Lean filterComments on the changed intervals of the real engine vs the comments of the real output; and the
+    invariant astdiff owes the filter: no changed interval reaches into a declaration in which nothing was rewritten"""
     d = ctx.scratch("iv")
     pth = os.path.join(d, "in.jsonl")
     with open(pth, "w") as f:
@@ -2784,8 +2812,18 @@ def c17_intervals_tie(ctx, jobs):
     if r.returncode != 0:
         ctx.broken("harness", "zzverif intervals failed: " + r.stderr[-1500:])
         return
-    with open(os.path.join(d, "intervals.cases")) as fin:
-        m = subprocess.run([ctx.driver], stdin=fin, stdout=subprocess.PIPE, stderr=subprocess.PIPE, text=True, timeout=1800)
+    # append the extents of the untouched declarations (engine model) to every case
+    lines = []
+    for l in open(os.path.join(d, "intervals.cases")).read().splitlines():
+        sx = parse_sx(l)
+        cid = sx[1]
+        decls = [(int(x[0]), int(x[1]), x[2] == "1") for x in (sx_field(sx[3:], "decls") or [])]
+        nonimp = [(a, b) for a, b, imp in decls if not imp]
+        unt = ""
+        if cid in touched:
+            unt = " (untouched" + "".join(f" ({a} {b})" for j, (a, b) in enumerate(nonimp) if j not in touched[cid]) + ")"
+        lines.append(l[:-1] + unt + ")")
+    m = subprocess.run([ctx.driver], input="\n".join(lines) + "\n", stdout=subprocess.PIPE, stderr=subprocess.PIPE, text=True, timeout=1800)
     impl = open(os.path.join(d, "intervals.impl")).read().splitlines()
     model = m.stdout.splitlines()
     byid = {cid: (patches, src) for cid, patches, src in jobs}
@@ -2795,13 +2833,30 @@ def c17_intervals_tie(ctx, jobs):
     for a, b in zip(impl, model):
         ctx.evaluations += 1
         ctx.count("intervals_cases")
-        if a != b:
-            sa, sb_ = parse_sx(a), parse_sx(b)
-            got = [cl.sx_unquote(x) for x in (sx_field(sa[2:], "survivors") or [])]
-            want = [cl.sx_unquote(x) for x in (sx_field(sb_[2:], "survivors") or [])]
+        sa, sb_ = parse_sx(a), parse_sx(b)
+        patches, src = byid.get(sa[1], ([""], ""))
+        resp = sx_field(sb_[2:], "respects") or ["1"]
+        ctx.count("respects:" + resp[0])
+        if resp[0] == "0":
+            payload = {"input": {"patches": patches, "src": src}, "interval": resp[1:3], "declaration": resp[3:5],
+                       "problems": ["syntactically unchanged but its comments changed (interval invariant)"],
+                       "reproduce": "gopatch -p p0.patch --print-only a.go"}
+            # F18 (import declarations merged, list diff pairs declarations wrongly): the same case with its imports
+            # grouped beforehand respects the invariant, and one import-adding change alone already breaks it
+            if any("+import" in p for p in patches):
+                g = group_imports(src)
+                if g and g != src and c17_respects_single(ctx, patches, g) is True:
+                    singles = [ch for p in patches for ch in split_changes(p)]
+                    if len(singles) <= 1 or any("+import" in ch and c17_respects_single(ctx, [ch], src) is False for ch in singles):
+                        payload["import_merge_only"] = True
+            ctx.violation(f"a changed interval [{resp[1]}, {resp[2]}) reaches into the declaration at [{resp[3]}, {resp[4]}) in which nothing was "
+                          f"rewritten: every comment there is at the mercy of the comment filter (file positions incl. the patch file's base)",
+                          payload)
+        got = [cl.sx_unquote(x) for x in (sx_field(sa[2:], "survivors") or [])]
+        want = [cl.sx_unquote(x) for x in (sx_field(sb_[2:], "survivors") or [])]
+        if got != want:
             lost = sorted(set(want) - set(got))
             extra = [x for x in got if got.count(x) > want.count(x)]
-            patches, src = byid.get(sa[1], ([""], ""))
             if extra:
                 ctx.violation(f"the output contains comments that the comment filter should have removed or that are duplicated: {extra[:3]}",
                               {"input": {"patches": patches, "src": src}})
